@@ -147,8 +147,8 @@ def run(ctx) -> None:
     fams = list(gen.SA_FAMILIES) + ["arbitrary_int", "arbitrary_float"]
     ns = [2, 3, 3, 4, 4, 5, 5, 6, 6, 7] + ([8] if not quick or ctx.shard == 0 else []) + ([9] if not quick and ctx.shard % 4 == 1 else [])
     jobs = 0
-    while not ctx.out_of_time(6.0):
-        n = rng.choice(ns)
+    while jobs < 12 or not ctx.out_of_time(6.0):        # a guaranteed minimum of jobs, then as many as the budget allows
+        n = rng.choice(ns) if jobs >= 12 else [3, 4, 5, 4, 3, 6][jobs % 6]
         fam = rng.choice(fams)
         if fam == "arbitrary_int":
             values, exact = [0.0] + [float(rng.randint(-9, 9)) for _ in range((1 << n) - 1)], True
